@@ -108,7 +108,7 @@ def check_engine(ctx, case) -> None:
     ctx.cls("alias:" + repr(alias))
     ctx.cls("form:" + form + ("+black" if formatted and form != "repr" else ""))
     with fl.settings.context(alias=alias, decimals=d):
-        e = build.mk_engine(spec, decimals=d)
+        e = build.mk_engine(spec, decimals=d, explicit_weights=True)
         code = export(e, form, formatted)
         try:
             e2 = rebuild(code, form, e.name, True)
@@ -125,7 +125,7 @@ def check_engine(ctx, case) -> None:
             ctx.fail("fll-differs", case, {"first": [(a, b) for a, b in zip(f1.split("\n"), f2.split("\n"))
                                                      if a != b][:3]})
         if precondition(spec, d):
-            o1 = c14_fll.process_rows(build.mk_engine(spec, decimals=d), rows)
+            o1 = c14_fll.process_rows(build.mk_engine(spec, decimals=d, explicit_weights=True), rows)
             o2 = c14_fll.process_rows(e2, rows)
             ctx.check(c14_fll.same_outputs(o1, o2), "outputs-differ", case, {"original": o1, "rebuilt": o2})
             ctx.cls("outputs_compared")
@@ -162,9 +162,20 @@ def check_engine(ctx, case) -> None:
 
 @st.composite
 def cases(draw):
-    rg, dlo = draw(st.sampled_from([("half", 1), ("dec", 3), ("dy", 6), ("free", 3), ("free", 3), ("free", 3)]))
-    d = draw(st.integers(dlo, 9))
+    rg, dlo = draw(st.sampled_from([("half", 1), ("dec", 3), ("dy", 6), ("free", 3), ("free", 3), ("free", 0), ("free", 0)]))
+    d = draw(st.integers(dlo, 9)) if dlo else draw(st.sampled_from([0, 1, 1, 2]))
     spec = c14_fll.fll_spec(draw, rg)
+    if rg == "free" and d < 3:
+        # few decimals: rule weights must stay representable (rules are exported as text); heights / parameters are
+        # arbitrary doubles, incl. heights that print as 1 at this precision but are far from 1 (0.96 at 1 decimal)
+        for b in spec["blocks"]:
+            for r in b["rules"]:
+                r["weight"] = draw(st.sampled_from([None, None, 0.0, 1.0] + ([0.5] if d >= 1 else [])))
+        ts = [t for v in spec["inputs"] + spec["outputs"] for t in v["terms"]
+              if t["cls"] not in ("Constant", "Linear", "Function")]
+        for t in ts:
+            if draw(st.booleans()):
+                t["h"] = draw(st.sampled_from([0.96, 0.951, 0.97, 0.6, 0.55, 0.9949]))
     for v in spec["inputs"] + spec["outputs"] + spec["blocks"]:
         v["description"] = draw(st.sampled_from(DESCR))
     spec["description"] = draw(st.sampled_from(DESCR))
